@@ -338,7 +338,10 @@ class _Learned:
         return hasattr(self, "sign_")
 
     def predict(self, X):
-        return self.sign_ * np.asarray(X, dtype=float)[:, 0] + self.shift_
+        out = self.sign_ * np.asarray(X, dtype=float)[:, 0] + self.shift_
+        # flavour 1: the scores come back as float32 (the recorded failing input of the repaired defect C10:thresholder:raises:float32-scores, repo fix c61411d,
+        # stays a case for ever: a "fixed" entry suppresses nothing)
+        return out.astype(np.float32) if self.flavour == 1 else out
 
 
 def _direct_cases(tier, seed):
@@ -361,16 +364,17 @@ def _check_direct(case):
     y = ((direction * x + 0.3 * rng.normal(size=n)) > 0).astype(int)
     y[:2] = [0, 1]
     X = x.reshape(-1, 1)
-    est = _Learned()
+    flavour = 1 if case[2] % 4 >= 2 else 0          # every second pair of cases: float32 scores
+    est = _Learned(flavour)
     stale = case[2] % 2 == 1
     if stale:            # the constructor argument was trained before, on data with the opposite direction
         est.fit(-X, y)
     idict = {}
     for a in groups:
         t0, t1 = sorted(float(v) for v in np.round(rng.normal(size=2), 2))
-        p0 = float(rng.choice([0.0, 0.25, 0.5, 1.0]))
+        p0 = float(rng.choice([0.0, 0.25, 0.5, 1.0] if not flavour else [0.0, 0.3, 0.7, 0.1]))          # float32 scores: mixing weights that are not float32 numbers
         idict[a] = Bunch(p0=p0, operation0=ThresholdOperation(">", t0), p1=1 - p0, operation1=ThresholdOperation(">", t1))
-    desc = f"InterpolatedThresholder(estimator={'trained elsewhere' if stale else 'unfitted'}, prefit=False, predict_method='predict') x={x.tolist()} y={y.tolist()} groups={g} " \
+    desc = f"InterpolatedThresholder(estimator={'trained elsewhere' if stale else 'unfitted'}, prefit=False, predict_method='predict', scores {'float32' if flavour else 'float64'}) x={x.tolist()} y={y.tolist()} groups={g} " \
            f"rules={ {a: (d.p0, d.operation0.threshold, d.p1, d.operation1.threshold) for a, d in idict.items()} }"
     replay = {"case": list(case)}
     try:
@@ -379,7 +383,7 @@ def _check_direct(case):
         score = np.asarray(it.estimator_.predict(X), dtype=float)
     except Exception as ex:
         return (True, fp, ("C10:thresholder:direct:raises", f"fit/_pmf_predict raised {type(ex).__name__}: {str(ex)[:120]}; {desc}", replay))
-    ref = _Learned().fit(X, y)
+    ref = _Learned(flavour).fit(X, y)
     if not np.allclose(score, ref.predict(X), atol=1e-12):
         return (True, fp, ("C10:thresholder:direct:estimator_-not-trained-by-fit", f"estimator_ is not the model trained by fit on the given data; {desc}", replay))
     for i in range(n):
